@@ -14,6 +14,12 @@ def showReply (r : Reply) : String :=
   kindChar r.type ++ ":" ++ toString r.code ++ ":" ++ toString r.mid ++ ":" ++ hexOrDash r.token ++ ":" ++
   showOpts r.opts ++ ":" ++ (match r.body with | .bytes b => hexOrDash b | .wellknown => "<wk>")
 
+/-- S leaves options and diagnostic payload of library-generated replies open (SPEC DECISION D4): printed as `*` -/
+def showReplyS (r : Reply) : String :=
+  match r.src with
+  | .app => showReply r
+  | .lib => kindChar r.type ++ ":" ++ toString r.code ++ ":" ++ toString r.mid ++ ":" ++ hexOrDash r.token ++ ":*:*"
+
 def showWho : Who → String
   | .res i => "r" ++ toString i
   | .unk => "unk"
@@ -23,9 +29,9 @@ def showCall (c : Call) : String :=
   showWho c.who ++ ":" ++ toString c.code ++ ":" ++ hexOrDash c.path ++ ":" ++ hexOrDash c.query ++ ":" ++
   showOpts c.opts ++ ":" ++ hexOrDash c.payload
 
-def showOutcome (o : Outcome) : String :=
+def showOutcome (o : Outcome) (sr : Reply → String := showReply) : String :=
   if ¬ o.inScope then "oos" else
-  "tx=" ++ (if o.replies.isEmpty then "-" else String.intercalate "/" (o.replies.map showReply)) ++
+  "tx=" ++ (if o.replies.isEmpty then "-" else String.intercalate "/" (o.replies.map sr)) ++
   " h=" ++ (match o.call with | some c => showCall c | none => "-")
 
 def natList (s : String) : Option (List Nat) :=
@@ -87,7 +93,8 @@ def step (args : List String) : String :=
     match Coap.M.parse .udp bs with
     | .ok msg =>
       let rq : Request := ⟨mc, msg, v, pu⟩
-      "M " ++ showOutcome (M.serverDecision cfg tbl rq)
+      "M " ++ showOutcome (M.serverDecision cfg tbl rq) ++ " | S " ++
+        showOutcome (S.serverSpec ⟨Generated.Server.unescPath, Generated.Server.unescQuery⟩ cfg tbl rq) showReplyS
     | _ => "M malformed"
 
 end Coap.Driver.Server
